@@ -236,6 +236,7 @@ func runC06(r *mc.Run) {
 	for _, f := range []string{"root", "tcbSigner", "nb:root", "nb:tcbSigner", "tcbNext", "qeNext"} {
 		shapes = append(shapes, c06Build(3, f))
 	}
+	c06Histories(r, shapes[0])
 	for _, s := range shapes {
 		// candidate values per field
 		type tv struct {
@@ -343,6 +344,116 @@ func runC06(r *mc.Run) {
 		r.SectionDone(mc.Section{Name: "time-assignments/" + s.name, Evaluations: int64(done), Exhaustive: done == len(work),
 			Note: fmt.Sprintf("%d distinct instants; singles at L0-L2, pairs at %v", len(s.instants), pairLevels)})
 	}
+}
+
+// c06Histories: every sequence of a fixed length over {point Options.Now at a NEW time set, overwrite
+// the time set Options.Now already points to, copy the options by value, verify at L0/L1/L2} on ONE
+// shared options value; each verification is judged against the reference at the times configured at
+// that moment, so a time that is read once and remembered shows.
+func c06Histories(r *mc.Run, s *c06shape) {
+	type tset struct {
+		name string
+		ts   [5]time.Time
+	}
+	all0 := [5]time.Time{world.T0, world.T0, world.T0, world.T0, world.T0}
+	menu := []tset{{"all@T0", all0}}
+	for f := 0; f < 5; f++ {
+		var first time.Time
+		for _, c := range s.cons {
+			if c.field == f && !c.na.IsZero() && (first.IsZero() || c.na.Before(first)) {
+				first = c.na
+			}
+		}
+		if first.IsZero() {
+			continue
+		}
+		ts := all0
+		ts[f] = first.Add(time.Second)
+		menu = append(menu, tset{fieldNames[f] + "@first-expiry+1s", ts})
+	}
+	mk := func(ts [5]time.Time) verify.TimeSet {
+		return verify.TimeSet{PckCertChain: ts[0], TcbInfo: ts[1], QeIdentity: ts[2], PckCrl: ts[3], RootCaCrl: ts[4]}
+	}
+	type op struct {
+		name  string
+		kind  int // 0 new pointer, 1 overwrite in place, 2 copy options, 3 verify
+		arg   int
+		level int
+	}
+	var ops []op
+	for i, m := range menu {
+		ops = append(ops, op{"Now=&{" + m.name + "}", 0, i, 0}, op{"*Now={" + m.name + "}", 1, i, 0})
+	}
+	ops = append(ops, op{"copy-options-by-value", 2, 0, 0})
+	nv := 3
+	for l := 0; l < nv; l++ {
+		ops = append(ops, op{"verify(" + lvlName[l] + ")", 3, 0, l})
+	}
+	depth := 3
+	if r.Thorough() {
+		depth = 4
+	}
+	n := len(ops)
+	total := nv
+	for i := 1; i < depth; i++ {
+		total *= n
+	}
+	done := r.Parallel(total, func(idx int) {
+		seq := make([]int, depth)
+		x := idx
+		seq[depth-1] = n - nv + x%nv
+		x /= nv
+		for i := depth - 2; i >= 0; i-- {
+			seq[i] = x % n
+			x /= n
+		}
+		id := "history/" + s.name + "/"
+		for _, k := range seq {
+			id += ops[k].name + ";"
+		}
+		if !r.Want(id) {
+			return
+		}
+		cur := all0
+		now := mk(cur)
+		o := &verify.Options{Now: &now, TrustedRoots: s.roots}
+		out := ""
+		for step, k := range seq {
+			p := ops[k]
+			switch p.kind {
+			case 0:
+				cur = menu[p.arg].ts
+				t := mk(cur)
+				o.Now = &t
+			case 1:
+				cur = menu[p.arg].ts
+				*o.Now = mk(cur)
+			case 2:
+				c := *o
+				o = &c
+			case 3:
+				o.GetCollateral, o.CheckRevocations, o.Getter = p.level >= 1, p.level >= 2, s.getter.Clone()
+				err := world.SafeVerifyRaw(s.raw, o)
+				want, why := s.inDate(p.level, cur)
+				v := verdict(err)
+				detail := map[string]any{"now": fmt.Sprint(*o.Now), "reference": why, "step": step + 1}
+				switch {
+				case world.IsPanic(err):
+					r.Violate("history:panic:"+crashSite(err), id, "verification through a re-used options value crashes: "+errStr(err), detail)
+				case err == nil && !want:
+					r.Violate("history:accepted-out-of-date:"+why, id, "through a re-used options value the quote is accepted although "+why+" (at the times configured for this call)", detail)
+					v = "accept!"
+				case err != nil && want:
+					r.Violate("history:rejected-in-date:"+lvlName[p.level], id, "through a re-used options value the quote is rejected although every artifact is in date at the times configured for this call: "+errStr(err), detail)
+					v = "reject!"
+				}
+				out += fmt.Sprintf("%v/%s;", want, v)
+			}
+		}
+		r.Eval(id, true, "history:"+out)
+	})
+	r.SectionDone(mc.Section{Name: "reused-options-histories/" + s.name, Evaluations: int64(done), MaxDepth: depth, Exhaustive: done == total,
+		Note: fmt.Sprintf("alphabet of %d operations (%d time sets x {new pointer, in place}, copy, verify at 3 levels), every sequence of length %d ending in a verification", n, len(menu), depth)})
 }
 
 func offFields(f []int) string {
